@@ -14,7 +14,7 @@ LEAN_MODULE = "Ctrmml.Properties.C10"
 THEOREMS = ["C10_unique_data_spec", "C10_seq_bytes_unchanged", "C10_relocation_sound", "C10_song_numbering",
             "C10_unique_string_terminates", "C10_identifiers_unique_valid", "C10_linker_idempotent_query",
             "C10_pcm_region_sound_partial", "C10_offset_window_counterexample",
-            "C10_pcm_histories_partial", "C10_pcm_later_songs_keep_partial", "C10_reader_agreement", "C10_stored_once"]
+            "C10_pcm_histories_partial", "C10_pcm_later_songs_keep_partial", "C10_reader_agreement", "C10_stored_once", "C10_song_resolves_partial"]
 LEVEL = "proof"
 STREAM = "link.out"
 CHUNK = 20
@@ -49,13 +49,15 @@ LEVEL_TEXT = ("Machine-checked theorems over a Lean model of MDSDRV_Linker: add_
               "serves what its file carried for that slot - data entries at the recorded index, PCM headers addressing exactly the "
               "sample's bytes inside the PCM bank returned, with the rate's pitch code, never crossing a bank boundary; later songs never "
               "change what earlier entries resolve to. The linker's chunk walk and the spec's own MDS reader are proved to agree on every "
-              "file the spec reader accepts, and add_song is proved to be the fold over exactly those entries. The history theorems are "
-              "partial: their one extra hypothesis is PCM start offset 0 (known finding D11).")
+              "file the spec reader accepts, and add_song is proved to be the fold over exactly those entries; and every song of every such "
+              "history whose file the spec reader accepts passes the spec's executable per-song resolver (songOk: table entry, body outside "
+              "the slots, every slot's pointer word, flag, data entry or PCM header and PCM region). The history theorems are partial: "
+              "their extra hypothesis is PCM start offset 0 (known finding D11); the resolver theorem also assumes a bank below 4 GiB.")
 LEVEL_NOTE = ("Trusted: Lean kernel; Model/Linker.lean (+ Model/Riff, Model/Wave), tied to mdsdrv.cpp by differential testing only; "
               "Spec/Link.lean; the converter is not modelled here (its real output is the input). Not proved, decided per case by the "
-              "oracle: that the executable resolver (LinkSpec.resolveBank / resolveHeaders: group order of the songs, span and area "
-              "checks, list-level stored-once, header text parsing) accepts the linked output - every ingredient is a theorem, the final "
-              "composition is not (see C10_full_statement in Properties/C10.lean for the exact list).")
+              "oracle: what LinkSpec.resolveBank / resolveHeaders check on top of the per-song resolver - that song number i is the i-th "
+              "song in the spec's group order, the span and area checks, the list-level stored-once test, and the header text parser; "
+              "every ingredient is a theorem, this final composition is not (see C10_full_statement in Properties/C10.lean).")
 
 EXPECT = {}   # stage-2 request -> 'direct=' answer of stage 1
 
